@@ -243,7 +243,7 @@ impl Hist {
                 Ev::DropSimEnd => h.drop_end = Some(seq),
                 Ev::PanicInjected { node, payload } => h.panics.push((seq, *node, payload.clone())),
                 Ev::Note(s) => h.notes.push((seq, s.clone())),
-                Ev::AuxBegin { .. } | Ev::AuxEnd { .. } => {}
+                Ev::AuxBegin { .. } | Ev::AuxEnd { .. } | Ev::Comp(_) => {}
             }
         }
         h
